@@ -671,6 +671,85 @@ func c18Watcher(res *Result) {
 	res.Notes = append(res.Notes, fmt.Sprintf("real fsnotify watcher converged on %d edits (in-place and rename)", len(steps)))
 }
 
+// c14E2E: the whole path — 1 s ticker -> OnTicker -> CLUSTER NODES probe on a pooled connection -> reply read by
+// the event loop -> clusterChan -> REAL refresh goroutine -> next ticker round rebuilds pools and the slot table —
+// with client traffic before and after; time only advances when the network is idle.
+func c14E2E(name string, before, after []world.NodeSpec, key string, wantAddr string, write bool, bound int, alsoOK ...string) *world.Scenario {
+	sc := &world.Scenario{Nodes: before, Bound: bound, Family: "end-to-end", Horizon: 600, RefreshLoop: true, CheckOwner: true,
+		Faults: []world.Fault{{Kind: "nodes-change", Nodes: after}},
+		Ticks:  []time.Duration{1100 * time.Millisecond, 1100 * time.Millisecond, 1100 * time.Millisecond}}
+	sc.TickGate = func(w *world.World) bool { return w.FaultsDone() && w.ProbesIdle() }
+	mk := func() Req {
+		if write {
+			return SetReq(key, "v")
+		}
+		return GetReq(key)
+	}
+	r0, r1 := mk(), mk()
+	cs := ClientOf([]Req{r0, r1}, false)
+	cs.Chunks[1].WaitTicks, cs.Chunks[1].WaitReplies = 3, 1
+	cs.Chunks[1].Gate = func(w *world.World) bool { return w.ProbesIdle() }
+	sc.Clients = []world.ClientSpec{cs}
+	sc.Name = fmt.Sprintf("C14/e2e/%s/write=%v/d%d", name, write, bound)
+	sc.Check = func(w *world.World) []world.Violation {
+		if w.RefreshDead {
+			return []world.Violation{{Sig: "refresh-loop-exits-on:valid-text", Msg: "the refresh goroutine terminated during normal probing"}}
+		}
+		// the request sent after three idle ticker rounds must be routed by the new topology straight away
+		for _, rec := range w.DataCmds("") {
+			if rec.CR >= 1 && hasKey(rec.Args, key) {
+				ok := rec.Addr == wantAddr
+				for _, a := range alsoOK {
+					if !write && rec.Addr == a {
+						ok = true // a read may be served by a usable replica of the new owner
+					}
+				}
+				if !ok {
+					return []world.Violation{{Sig: "stale-or-wrong-table", Msg: fmt.Sprintf("three ticker rounds after the nodes started to report the new topology (%s), %q was still routed to %s instead of %s", name, rec.Raw, rec.Addr, wantAddr)}}
+				}
+				break
+			}
+		}
+		return CheckStreams(w, StreamOpts{AnyError: func(ci, j int) bool { return j == 0 }})
+	}
+	return sc
+}
+
+func c14E2EScenarios(tier string) []*world.Scenario {
+	b := 1
+	if tier == "thorough" {
+		b = 3
+	}
+	var out []*world.Scenario
+	base := T3()
+	key := keysA[0] // slot in 0..5460
+	slot := world.SpecSlot([]byte(key))
+	// the slot's range moves from A to B
+	moved := T3()
+	moved[0].Slots = [][2]int{{0, slot - 1}}
+	moved[1].Slots = [][2]int{{slot, 10922}}
+	// failover: A fails, replica a1 is promoted, a2 follows a1
+	fail := []world.NodeSpec{
+		{Name: "aaa", Addr: AddrA, Slots: [][2]int{{0, 5460}}, Flags: "fail", Link: "disconnected"},
+		{Name: "bbb", Addr: AddrB, Slots: [][2]int{{5461, 10922}}},
+		{Name: "ccc", Addr: AddrC, Slots: [][2]int{{10923, 16383}}},
+		{Name: "a1", Addr: AddrA1, Slots: [][2]int{{0, 5460}}},
+		{Name: "a2", Addr: AddrA2, Master: "a1"},
+		{Name: "b1", Addr: AddrB1, Master: "bbb"},
+	}
+	// a new master takes over the slot's range
+	added := T3()
+	added[0].Slots = [][2]int{{0, slot - 1}, {slot + 1, 5460}}
+	added = append(added, world.NodeSpec{Name: "ddd", Addr: AddrD, Slots: [][2]int{{slot, slot}}})
+	for _, write := range []bool{true, false} {
+		out = append(out, c14E2E("range-moved", base, moved, key, AddrB, write, b, AddrB1))
+		out = append(out, c14E2E("failover", base, fail, key, AddrA1, true, b))
+		out = append(out, c14E2E("node-added", base, added, key, AddrD, write, b))
+	}
+	// reads after the move may go to B or its replica b1: judge writes only for the exact node, reads for the set
+	return out
+}
+
 func parseInts(s string) []int {
 	var out []int
 	for _, f := range strings.Fields(strings.Trim(s, "[]")) {
@@ -697,7 +776,7 @@ func init() {
 	}
 	register(&Check{ID: "C14", Level: "model_checking",
 		Rule: "breadth-first search over histories of probe replies pushed through the REAL refresh goroutine (loopClusterNodes) and the real ticker: alphabet of 19 messages = 11 valid texts (base, failover with failed master, slot range moved, range split with migration markers, node added, replica removed, replica re-parented, replica disconnected, handshake/noaddr/failed extra nodes, new replicas whose INFO says loading / link down / dial error / ok, unclaimed range) + 8 unusable replies (nil bulk, two error replies, status, oversize > 163840, two usable nodes, 7-column lines, garbage text); depth 3 (thorough 4) with de-duplication on the canonical dump of the real refresh state; a barrier message makes 'all earlier replies processed' deterministic; oracle: after two ticker rounds of virtual time the slot->(master, replica set) map for ALL 16384 slots and the pool set/roles equal the reference built from the LAST VALID text, and the goroutine is still alive; states = distinct real refresh states reached; transitions = messages delivered",
-		Seq: c14Seq, BudgetQuick: 100, BudgetThorough: 1500,
+		Seq: c14Seq, Scenarios: c14E2EScenarios, BudgetQuick: 100, BudgetThorough: 1500,
 		Assumptions: []string{"'within a few seconds' = within two ticker rounds of virtual time", "the INFO probe of newly discovered nodes is answered by a stub; the health monitor is not run", "memory-model races between the refresh goroutine and the loop are outside the technique (the barrier orders them)"}})
 	register(&Check{ID: "C18", Level: "model_checking",
 		Rule: "every history of 1..2 (thorough 1..3) successive whitelist file contents out of the 16 states {enable on/off} x subsets of {127.0.0.1,.2,.3}; each content is written to a scratch file and loaded through the real parseAuthIp exactly as the watcher does; then four clients (three listed candidates + one foreign address) connect through the real accept path and pipeline two requests; oracle: admitted set = set in the final file (everyone when disabled), rejected clients are closed with zero bytes and nothing of theirs reaches a backend; thorough adds the real fsnotify watcher with in-place and rename edits (5 s convergence window); states = histories, transitions = file loads",
